@@ -36,6 +36,32 @@ CHECKS = {
             "and REPL sessions (replace_locals / release_orphan_locals), down to quantum 1; results are compared with the value the "
             "mechanism model assigns (ContentPreserved); refcount assertion panics are recorded as data.",
             RT_NOTE + " Reachability is recomputed by the harness from Process fields, not by reachable_heap_indices.", RT_TECH),
+    "C07": ("vmstack", "model_checking",
+            "spec/VMSem.tla transcribes the stack/locals effect of every instruction from execute_hot/execute_cold; spec/VMStack.tla "
+            "runs the abstract machine (height and defined-locals per pc, work-list fixpoint) over EVERY path of every function and "
+            "checks no underflow, jumps in range, table indices in range, Load defined on all paths, a unique height at joins, exit "
+            "height 1, TailCall heights; corpus = std library, every source string of the test suite, spec.md examples, examples/, "
+            "generated programs, each in four forms (as compiled, tree-shaken, CLI-style tree-shaken, merged into an environment); "
+            "spec/VMTrace.tla validates per-instruction traces of the REAL VM against the same stack effects (zero drift).",
+            "Trusted: the bytecode dumper (harness bcdump) and the transcription of handler effects, itself validated by VMTrace on "
+            "~700k real instruction steps. Exhaustive per function; the quantifier over programs is the corpus + generator.",
+            "TLA+ abstract machine over the emitted bytecode, checked by TLC on every path; real VM traces validated against it"),
+    "C10": ("packaging", "model_checking",
+            "spec/Packaging.tla states that the outcome of Run(p, config) after any history of merges depends on p alone and that an "
+            "import denotes the module body's value; TLC enumerates all merge histories of <= 3 programs over an 8-program pool (585); "
+            "harness pkgrun runs test-suite/spec corpus programs, a fixed set under EVERY history, and import-vs-in-place pairs in the "
+            "configurations compiled / tree-shaken / JSON round trip (byte-identical re-serialisation) / merged-after-history, a sample "
+            "also through the real `quiv run`; spec/PackagingTrace.tla judges ConfigsAgree, SerdeIdentical, HistoryIndependent.",
+            "Trusted: value projection; the agreed outcome is the implementation's own (generated programs are judged against SeqLang by C02).",
+            "TLA+ specification of packaging histories; TLC-enumerated histories replayed into the implementation; outcomes validated by TLC"),
+    "C16": ("vmstack", "model_checking",
+            "Static part: spec/VMStack.tla proves on every path of every function that TailCall(true) sits at operand height exactly 1 and "
+            "TailCall(false) at exactly 2 (no operand survives an iteration). Dynamic part: 46 tail-recursive shapes (^, ^f, ^~, mutual "
+            "recursion, tail calls inside nested blocks/branches/consequences, with and without a heap binary dropped per iteration) run "
+            "on the real VM one instruction at a time at N=20 and 50N=1000; spec/VMTrace.tla validates both traces and spec/VMPeaks.tla "
+            "judges that peak frames/locals/stack are equal at N and 50N and the heap stays bounded.",
+            "Trusted: as C07. The shapes are templates; iteration counts 20 and 1000.",
+            "TLA+ abstract machine (TailCall height rule on all paths) + real VM traces at N and 50N validated and compared by TLC"),
     "C11": ("repl", "model_checking",
             "spec/Repl.tla is the session machine (accepted lines, dead-after-nil, variables; a rejected line leaves the state "
             "unchanged); TLC generates line histories over a 26-line pool (bindings, destructurings, shadowing with a type change, type "
@@ -83,6 +109,10 @@ ENGINES = [
      "kind_free_text": "TLC exhaustive model checking of spec/Runtime.tla (and spec/Heap.tla) per scenario family + recorded executions "
                        "of the real Environment/Workers (harness `sim`) judged by the TLA+ property monitor spec/RuntimeObs.tla and "
                        "validated against the mechanism model by spec/RuntimeTrace.tla"},
+    {"name": "vmstack", "path": "engines/vmstack.py", "serves_properties": ["C07", "C16"],
+     "kind_free_text": "harness bcdump/vmtrace; spec/VMSem.tla + VMStack.tla (all paths of every function) + VMTrace.tla (real VM traces) + VMPeaks.tla"},
+    {"name": "packaging", "path": "engines/packaging.py", "serves_properties": ["C10"],
+     "kind_free_text": "TLC enumerates merge histories (spec/Packaging.tla); harness pkgrun; spec/PackagingTrace.tla judges"},
     {"name": "repl", "path": "engines/repl_engine.py", "serves_properties": ["C11"],
      "kind_free_text": "TLC generates histories of spec/Repl.tla; harness replrun/qrun replay them; spec/ReplTrace.tla judges"},
     {"name": "dict", "path": "engines/dict_engine.py", "serves_properties": ["C19"],
